@@ -236,8 +236,52 @@ fn show_file(f: &FileModel) -> String {
     )
 }
 
+/// Documents made only of files whose names have a directory in front of a
+/// patch-like last component (`patches/patch-aa`, `files/emul-linux-patch-x`),
+/// each with checksum lines and no size: whether such a file counts as a patch
+/// or as a distfile is read differently by different people, but a document
+/// of this shape is canonical under either reading, so it has to come back
+/// byte for byte - including the directory part of every name.
+fn dir_patch_docs(cx: &mut Cx) {
+    let dirs = ["patches", "files", "a", "patches/sub", "emul", "x.d", "\u{e9}"];
+    let lasts = ["patch-aa", "patch-configure", "patch-src_main.c", "emul-linux-patch-ab", "patch-Makefile.in"];
+    let mut serial = 0u32;
+    let mut r = cx.stream("dir-patch-docs");
+    let n = cx.per_shard(2, 8, 40, 400);
+    for _ in 0..n {
+        let k = r.range(1, 4);
+        let mut text = b"$NetBSD$\n\n".to_vec();
+        let mut used: Vec<String> = vec![];
+        for _ in 0..k {
+            let name = format!("{}/{}", r.pick(&dirs), r.pick(&lasts));
+            if used.contains(&name) {
+                continue;
+            }
+            used.push(name.clone());
+            for a in [crate::oracle::distinfo::ALGS[r.below(crate::oracle::distinfo::ALGS.len())], crate::oracle::distinfo::ALGS[3]].iter().take(r.range(1, 2)) {
+                let h = gd::unique_hash(&mut r, *a, &mut serial);
+                text.extend_from_slice(format!("{} ({name}) = {h}\n", a.keyword()).as_bytes());
+            }
+        }
+        cx.check(
+            || format!("document of directory-prefixed patch names only: {}", show(&text)),
+            |ev| {
+                ev.count("docs/dir-patch-names");
+                ev.eval();
+                let out = Distinfo::from_bytes(&text).as_bytes();
+                if out != text {
+                    return Err(format!("as_bytes() differs from the input at byte {}: wrote {:?}", first_diff(&out, &text), clip(&out)).into());
+                }
+                ev.nontrivial(hash_strs(&[&text]));
+                Ok(())
+            },
+        );
+    }
+}
+
 pub fn run(cx: &mut Cx) {
     cx.default_budget();
+    dir_patch_docs(cx);
     for (k, _) in gd::DANGER {
         cx.ev.require(&format!("name-byte/{k}"));
     }
